@@ -41,6 +41,11 @@ func genCase() *rapid.Generator[tcase] {
 	return rapid.Custom(func(t *rapid.T) tcase {
 		c := tcase{LogLevel: rapid.SampledFrom([]string{"", "", "", "error", "debug", "trace", "trace"}).Draw(t, "log-level")}
 		f := fg.Flow{Name: "uflow", URL: "h.com/g"}
+		if rapid.IntRange(0, 2).Draw(t, "status-filter") == 0 {
+			// the flow's filter lists status codes (the provider's 200 is one of them): a request the flow answers
+			// itself has no provider response, and its response path must be walked all the same
+			f.FilterExtra = "  status_code: [200, 201, 418]\n"
+		}
 		n := rapid.IntRange(1, 5).Draw(t, "nreq")
 		big := rapid.IntRange(0, 4).Draw(t, "big") == 0
 		if big {
